@@ -145,6 +145,10 @@ outcomes! {
     MED_NONE = "median:none",
     MED_ODD = "median:odd",
     MED_EVEN = "median:even",
+    MED_ODD_GIANT = "median:odd:extreme-magnitude",
+    MED_EVEN_GIANT = "median:even:extreme-magnitude",
+    TS_GIANT = "theil_sen:extreme-magnitude",
+    TS_GIANT_UNREPRESENTABLE = "theil_sen:extreme-magnitude:result-not-representable(skipped)",
     BH_NONE = "bh:nothing_rejected",
     BH_ALL = "bh:everything_rejected",
     BH_SOME = "bh:some_rejected",
@@ -1373,6 +1377,167 @@ fn run_long_series(n: usize, acc: &mut Acc) {
 // Jobs
 // ---------------------------------------------------------------------------------------------
 
+// ---------------------------------------------------------------------------------------------
+// Family G: infinite-free extreme-magnitude data for the estimators (median, Theil-Sen). The
+// exact-rational reference of the other families needs integer-valued data; here the reference
+// is the same brute-force definition evaluated on the data scaled down by 2^-8 (exact for the
+// giants, so nothing in the reference overflows) and scaled back.
+// ---------------------------------------------------------------------------------------------
+
+const GIANTS: [f64; 11] = [
+    f64::MIN,
+    -1.2e308,
+    -1e308,
+    -9e307,
+    -5e-324,
+    0.0,
+    5e-324,
+    9e307,
+    1e308,
+    1.2e308,
+    f64::MAX,
+];
+const GIANT_SCALE: f64 = 1.0 / 256.0;
+
+/// Median by definition on data that cannot overflow: sort, middle element or the exact half-sum.
+fn median_by_definition(v: &mut [f64]) -> Option<(f64, f64, f64)> {
+    if v.is_empty() {
+        return None;
+    }
+    v.sort_unstable_by(f64::total_cmp);
+    let n = v.len();
+    if n % 2 == 1 {
+        Some((v[n / 2], v[n / 2], v[n / 2]))
+    } else {
+        let (lo, hi) = (v[n / 2 - 1], v[n / 2]);
+        Some((lo / 2.0 + hi / 2.0, lo, hi))
+    }
+}
+
+/// Finite, and equal up to `1e-12 * magnitude * factor` (compared on the scaled-down values so
+/// that neither the difference nor the tolerance can overflow).
+fn close_giant(actual: f64, expected: f64, magnitude: f64, factor: f64) -> bool {
+    actual.is_finite()
+        && (actual == expected
+            || (actual * GIANT_SCALE - expected * GIANT_SCALE).abs() <= 1e-12 * (magnitude * GIANT_SCALE) * factor + 1e-322)
+}
+
+fn check_median_f64(x: &[f64], acc: &mut Acc) {
+    acc.evaluations += 1;
+    let mut sorted = x.to_vec();
+    let Some((exp, lo, hi)) = median_by_definition(&mut sorted) else {
+        return;
+    };
+    let mut scratch = x.to_vec();
+    let in_place = median_in_place(&mut scratch);
+    for (which, got) in [("median", median(x)), ("median_in_place", in_place)] {
+        let ok = match got {
+            // between the two middle order statistics, and the half-sum up to rounding
+            Some(a) => a >= lo && a <= hi && close_giant(a, exp, lo.abs().max(hi.abs()), 1.0),
+            None => false,
+        };
+        if !ok {
+            acc.fail(
+                format!("median.value/extreme-magnitude/{}", if x.len() % 2 == 0 { "even" } else { "odd" }),
+                format!("{which} = {got:?}, the middle order statistics are {lo:e} and {hi:e} (definition: {exp:e})"),
+                series_case("median_f64", x),
+            );
+        }
+    }
+    acc.out(if x.len() % 2 == 0 { O::MED_EVEN_GIANT } else { O::MED_ODD_GIANT });
+}
+
+/// Theil-Sen by definition on the scaled data; `None` when a quantity the definition names (a
+/// pairwise slope, a per-point intercept `x_i - slope*i`, or a result) is not representable in f64
+/// (then nothing is demanded of the implementation).
+fn theil_sen_scaled_reference(x: &[f64]) -> Option<(f64, f64)> {
+    let xs: Vec<f64> = x.iter().map(|v| v * GIANT_SCALE).collect();
+    let n = xs.len();
+    let limit = f64::MAX * GIANT_SCALE;
+    let mut slopes = Vec::new();
+    for i in 0..n {
+        for j in i + 1..n {
+            slopes.push((xs[j] - xs[i]) / (j - i) as f64);
+        }
+    }
+    if slopes.iter().any(|s| s.abs() > limit) {
+        return None;
+    }
+    let (slope, _, _) = median_by_definition(&mut slopes)?;
+    let mut intercepts: Vec<f64> = xs.iter().enumerate().map(|(i, v)| v - slope * i as f64).collect();
+    if intercepts.iter().any(|s| s.abs() > limit) {
+        return None;
+    }
+    let (intercept, _, _) = median_by_definition(&mut intercepts)?;
+    Some((slope / GIANT_SCALE, intercept / GIANT_SCALE))
+}
+
+fn check_theil_sen_f64(x: &[f64], acc: &mut Acc) {
+    if x.len() < 2 {
+        return;
+    }
+    // The tiny values vanish under the scaling; keep the reference exact by using them only in
+    // series whose other members are zero or giants (they are then far below the tolerance).
+    acc.evaluations += 1;
+    let Some((es, ei)) = theil_sen_scaled_reference(x) else {
+        acc.out(O::TS_GIANT_UNREPRESENTABLE);
+        return;
+    };
+    acc.out(O::TS_GIANT);
+    let magnitude = x.iter().fold(0.0_f64, |m, v| m.max(v.abs()));
+    match theil_sen_line(x) {
+        Some((slope, intercept)) => {
+            if !close_giant(slope, es, magnitude, 2.0) {
+                acc.fail(
+                    "theil_sen.slope/extreme-magnitude".into(),
+                    format!("slope = {slope:e}, the median of the pairwise slopes is {es:e}"),
+                    series_case("theil_sen_f64", x),
+                );
+            }
+            if !close_giant(intercept, ei, magnitude, 2.0 * x.len() as f64) {
+                acc.fail(
+                    "theil_sen.intercept/extreme-magnitude".into(),
+                    format!("intercept = {intercept:e}, the median of x_i - slope*i is {ei:e}"),
+                    series_case("theil_sen_f64", x),
+                );
+            }
+        }
+        None => acc.fail(
+            "theil_sen.presence".into(),
+            "theil_sen_line returned None for two or more points".into(),
+            series_case("theil_sen_f64", x),
+        ),
+    }
+}
+
+fn run_giants(first: usize, max_len: usize, acc: &mut Acc) {
+    let mut idx = vec![first];
+    loop {
+        let x: Vec<f64> = idx.iter().map(|&i| GIANTS[i]).collect();
+        let mut h = vec![b'G'];
+        h.extend(idx.iter().map(|&i| i as u8));
+        acc.distinct.insert(fnv1a(&h));
+        check_median_f64(&x, acc);
+        check_theil_sen_f64(&x, acc);
+        // next sequence in length-lexicographic order with the first element fixed
+        if idx.len() < max_len {
+            idx.push(0);
+            continue;
+        }
+        loop {
+            if idx.len() == 1 {
+                return;
+            }
+            let last = idx.len() - 1;
+            if idx[last] + 1 < GIANTS.len() {
+                idx[last] += 1;
+                break;
+            }
+            idx.pop();
+        }
+    }
+}
+
 #[derive(Clone, Debug)]
 enum Job {
     Seq {
@@ -1395,6 +1560,11 @@ enum Job {
     Long {
         n: usize,
     },
+    /// family G: every sequence of length 1..=max_len over the GIANTS table starting with `first`
+    Giants {
+        first: usize,
+        max_len: usize,
+    },
 }
 
 struct Plan {
@@ -1404,6 +1574,7 @@ struct Plan {
     canon_max: usize,
     boundary_ks: Vec<usize>,
     selection_max: usize,
+    giants_max_len: usize,
 }
 
 fn plan() -> Plan {
@@ -1415,6 +1586,7 @@ fn plan() -> Plan {
             canon_max: 14,
             boundary_ks: (10..=29).collect(),
             selection_max: 7,
+            giants_max_len: 7,
         }
     } else {
         Plan {
@@ -1424,6 +1596,7 @@ fn plan() -> Plan {
             canon_max: 11,
             boundary_ks: vec![20, 27, 28, 29],
             selection_max: 6,
+            giants_max_len: 5,
         }
     }
 }
@@ -1516,6 +1689,9 @@ fn build_jobs(plan: &Plan) -> Vec<Job> {
     for n in [400, 200, 100, 96, 64, 50, 30, 20, 12] {
         jobs.push(Job::Long { n });
     }
+    for first in 0..GIANTS.len() {
+        jobs.push(Job::Giants { first, max_len: plan.giants_max_len });
+    }
     jobs
 }
 
@@ -1575,6 +1751,11 @@ fn run_job(job: &Job, plan: &Plan, cache: &mut TailCache) -> JobOut {
             run_long_series(*n, &mut acc);
             let evals = acc.evaluations;
             acc.family("F:long series (reporting floor)", evals);
+        }
+        Job::Giants { first, max_len } => {
+            run_giants(*first, *max_len, &mut acc);
+            let evals = acc.evaluations;
+            acc.family("G:extreme-magnitude series (median, Theil-Sen)", evals);
         }
     }
     let distinct = acc.distinct.len() as u64;
@@ -1649,6 +1830,23 @@ fn describe(case: &Value) -> Result<(Value, Vec<String>), String> {
             (
                 e.map_or(json!(null), |e| json!({"index": e.index, "k": e.k, "p": fj(e.p), "maximisers": e.argmax_count})),
                 a.map_or(json!(null), |a| json!({"index": a.index, "k": fj(a.k_statistic), "p": fj(a.p_value)})),
+            )
+        }
+        "median_f64" => {
+            let x = vecf("values")?;
+            check_median_f64(&x, &mut acc);
+            let mut sorted = x.clone();
+            (
+                json!(median_by_definition(&mut sorted).map(|(m, lo, hi)| json!({"half_sum": fj(m), "low": fj(lo), "high": fj(hi)}))),
+                json!(median(&x).map(fj)),
+            )
+        }
+        "theil_sen_f64" => {
+            let x = vecf("values")?;
+            check_theil_sen_f64(&x, &mut acc);
+            (
+                json!(theil_sen_scaled_reference(&x).map(|(s, i)| json!({"slope": fj(s), "intercept": fj(i)}))),
+                json!(theil_sen_line(&x).map(|(s, i)| json!({"slope": fj(s), "intercept": fj(i)}))),
             )
         }
         "theil_sen_line" | "median" => {
@@ -1860,6 +2058,7 @@ fn main() {
             Job::StudentT => (2, 0, 0),
             Job::Canon { comp } => (3, comp.iter().map(|&c| c as usize).sum(), comp.len()),
             Job::Long { n } => (4, *n, 0),
+            Job::Giants { first, .. } => (1, 0, *first),
             Job::Boundary { n1, n2, a, .. } => (5, n1 + n2, *a),
         }
     };
@@ -1961,13 +2160,17 @@ fn main() {
          one of 2x+1 / x^3). D: Benjamini-Hochberg on every p-vector of length 0..=5 over \
          {{0,1e-16,1e-15,0.01,0.049,0.05,0.051,1,NaN}} x q in {{0.05,0.1}} x family in {{len,len+3}}. E: Student t on a \
          27x2 x 25 grid of (t, df) incl. non-finite. F: monotone/step/constant/sawtooth series of 12..400 points (reporting \
-         floor). For n <= {selmax}: selection_adjusted_change_point index/tainted_p/superiority/range. A case is distinct by \
+         floor). G: every sequence of 1..={gmax} values over the 11-value table {{-MAX,-1.2e308,-1e308,-9e307,-5e-324,0,5e-324,9e307,1e308,1.2e308,MAX}} \
+         (infinite-free extreme magnitudes) for median / median_in_place (result between the two middle order statistics and equal to \
+         their half-sum) and Theil-Sen (against the same definition evaluated on the data scaled by 2^-8, skipped where the \
+         defined result is not representable). For n <= {selmax}: selection_adjusted_change_point index/tainted_p/superiority/range. A case is distinct by \
          (function family, level sequence or multiset pair or size+pattern, split); it is non-trivial when the function \
          returns a computed result rather than its documented degenerate default (both samples non-empty, n >= 2, len >= 1). \
          Oracle: reference.rs (pair counting, brute-force subset enumeration / u128 counting, exact rationals, libm erfc); \
          tolerances: {TOL_EXACT:e} relative where both sides are exact arithmetic, {TOL_NORMAL:e} on normal-tail p-values, \
          {TOL_STUDENT:e} on Student t.",
         tmax = plan.seq_time_max,
+        gmax = plan.giants_max_len,
         smax = plan.seq_two_sample_max,
         fmax = plan.seq_full_maps_max,
         bmin = plan.seq_two_sample_max + 1,
